@@ -8,6 +8,9 @@ spec/Directives.tla   : scope trees (module -> def / cdef function / cdef class 
     default (as a candidate *set*, checked to be a singleton); implementation-shaped = dictionary
     propagation.  TLC: every tree is a state; invariants Unambiguous, DictAgrees, NoLeak, Applies,
     SourceOrder; every state is published with the demanded value at every node.
+    Every node carries its *list* of decorators / with-items; in the `stack` configurations the
+    lists are arbitrary sequences (repeated directives: first decorator / last with-item wins;
+    invariants Precedence, OwnAgrees against the transcription of _extract_directives).
 spec/DirectiveText.tla: directive value texts (character sequences built from chunks) and
     `name=value,...` lists (token sequences), with the documented result per directive type.
 
@@ -50,6 +53,7 @@ def run_tlc(tier, cov):
             ("DirectiveText", "DirectiveText_v3" if tier == "quick" else "DirectiveText_v4", True),
             ("DirectiveText", "DirectiveText_l1a", True),
             ("DirectiveText", "DirectiveText_l2s" if tier == "quick" else "DirectiveText_l2m", False)]
+    jobs.append(("Directives", "Directives_stack" if tier == "quick" else "Directives_stackL", False))
     if tier == "thorough":
         jobs.append(("Directives", "Directives_tree2", True))
         jobs.append(("Directives", "Directives_tree3all", False))
@@ -61,7 +65,7 @@ def run_tlc(tier, cov):
             # the JVM died without a verdict (seen once on an overloaded machine): one more try
             r = core.tlc(j[0], cfg=j[1], workers=w, timeout=3000, coverage=j[2], heap="3g")
         return r
-    with concurrent.futures.ThreadPoolExecutor(max_workers=4) as ex:
+    with concurrent.futures.ThreadPoolExecutor(max_workers=6 if tier == "quick" else 4) as ex:
         rs = list(ex.map(one, jobs))
     out = {}
     for j, r in zip(jobs, rs):
@@ -70,7 +74,7 @@ def run_tlc(tier, cov):
             sys.stderr.write(r.out[-5000:])
             core.die("TLC failed (%s): %s" % (r.violation or r.rc, r.cmd))
         cov["tlc"].append(dict(r.summary(), config=j[1]))
-        out[j[1].split("_", 1)[1]] = r
+        out["stack" if j[1].startswith("Directives_stack") else j[1].split("_", 1)[1]] = r
     # vacuity guard (model side): every action produced states
     acts = {}
     for k in ("src", "tree2"):
@@ -89,11 +93,23 @@ def run_tlc(tier, cov):
         core.die("vacuous model: AddItem never produced a state")
     cov["action_coverage"] = dict(acts, **{a: tv[a][0] for a in ("AddLetters", "AddDigit", "AddBlank", "AddSign")})
     cov["action_coverage"]["AddItem"] = out["l1a"].coverage["AddItem"][0]
-    for k in ("tree3", "src", "tree2", "l1a"):
+    for k in ("tree3", "src", "tree2", "stack", "l1a"):
         if k not in out:
             continue
         if len(out[k].printed) != out[k].distinct:
             core.die("Directives_%s: %d states but %d published cases" % (k, out[k].distinct, len(out[k].printed)))
+    # vacuity guard for the decorator / with-item lists: every class of repeated directive was generated
+    cls = {}
+    for c in out["stack"].printed:
+        for nd, sh in zip(c["nodes"], c["shadow"]):
+            for d in "pq":
+                key = ("with" if nd["kind"] == "with" else "decorator") + ":" + sh[d]
+                cls[key] = cls.get(key, 0) + 1
+    for kd in ("decorator", "with"):
+        for sc in ("none", "single", "same", "restore", "flip"):
+            if not cls.get(kd + ":" + sc):
+                core.die("vacuous model: no %s list of class %s in Directives_stack (%r)" % (kd, sc, cls))
+    cov["list_classes"] = cls
     return out
 
 
@@ -254,7 +270,9 @@ def judge_run(rep, m, spec, executed, stats):
                 rec = {"case": kk, "node": ii, "kind": m.cases[kk]["nodes"][ii - 1]["kind"]}
             dirs = probe_directive(key)
             dfr = L.deferred_real(m.cases[rec["case"]], rec["node"], m.preal, m.qreal)
-            desc = dict(m.descriptor(rec, "run"), differs_from_owner=any(d in dfr for d in dirs), probe=what + ":" + key[-1])
+            shd = [L.shadow_real(m.cases[rec["case"]], rec["node"], d, m.preal, m.qreal) for d in dirs]
+            desc = dict(m.descriptor(rec, "run"), differs_from_owner=any(d in dfr for d in dirs), probe=what + ":" + key[-1],
+                        shadow=next((x for x in shd if x not in ("none", "single")), shd[0]))
             if isinstance(o, dict):
                 got = o.get(key, "<absent>")
                 if got != "<absent>":
@@ -605,13 +623,48 @@ def has_deferred(c):
     return any(d["p"] or d["q"] for d in c["deferred"])
 
 
+STACK_STRATA = [  # (name, predicate, quick, thorough)
+    ("decorator-restore", lambda c: L.has_class(c, ("restore",), "dec"), 60, 500),
+    ("decorator-flip", lambda c: L.has_class(c, ("flip",), "dec"), 24, 200),
+    ("decorator-same", lambda c: L.has_class(c, ("same",), "dec"), 16, 150),
+    ("with-repeated", lambda c: L.has_class(c, ("restore", "flip", "same"), "with"), 24, 150),
+    ("reordered", lambda c: not L.has_class(c, ("restore", "flip", "same")) and
+     not all(L.is_canonical(n) for n in c["nodes"]), 12, 100),
+    ("canonical", lambda c: all(L.is_canonical(n) for n in c["nodes"]), 8, 50)]
+
+
+def pick_stack(cases, quick, rng, cov):
+    """stratified sample of the `stack` configuration: every class of list is replayed"""
+    picked, seen, counts = [], set(), {}
+    for name, pred, nq, nt in STACK_STRATA:
+        pool = [c for c in cases if pred(c)]
+        if not pool:
+            core.die("vacuous model: stratum %s of Directives_stack is empty" % name)
+        got = 0
+        for c in core.sample(pool, nq if quick else nt, rng):
+            k = L.case_key(c)
+            if k not in seen:
+                seen.add(k)
+                picked.append(c)
+                got += 1
+        counts[name] = {"generated": len(pool), "replayed": got}
+    cov["list_strata"] = counts
+    return picked
+
+
 def make_b1(sets, t3d, t3n, gsrc, quick, seed, rng):
     q_rot = ["wraparound", "binding", "boundscheck"]
     b1_groups = []
     fdef = [c for c in t3d if any(n["kind"] in ("def", "cfn") for n in c["nodes"])]
     nb = 1 if quick else 3
+    # repeated decorators / with-items (module-wide sources as in tree3: none)
+    plain = [c for c in sets["stack"] if L.src_key(c) == L.src_key(t3n[0]) and
+             any(n["kind"] in ("def", "cfn") for n in c["nodes"])]
+    st_restore = [c for c in plain if L.has_class(c, ("restore",))]
+    st_other = [c for c in plain if L.has_class(c, ("flip", "same")) and not L.has_class(c, ("restore",))]
     for i in range(nb):
-        b1_groups.append(core.sample(fdef, 6 if quick else 8, rng) + core.sample(t3n, 8 if quick else 12, rng))
+        b1_groups.append(core.sample(fdef, 6 if quick else 8, rng) + core.sample(t3n, 8 if quick else 12, rng) +
+                         core.sample(st_restore, 6 if quick else 10, rng) + core.sample(st_other, 3 if quick else 6, rng))
     conflict = [k for k in sorted(gsrc) if (lambda c: c["hpos"] == "top" and any(
         c["hdr"][d] != "-" and c["opt"][d] != "-" and c["hdr"][d] != c["opt"][d] for d in "pq"))(gsrc[k][0])]
     for i in range(nb):
@@ -668,7 +721,7 @@ def run(tier, seed):
     tl = run_tlc(tier, cov)
     phases["tlc"] = round(time.time() - t0, 1)
     sets = {}
-    for k in ("tree3", "src", "tree2"):
+    for k in ("tree3", "src", "tree2", "stack"):
         if k not in tl:
             sets[k] = []
             continue
@@ -690,6 +743,7 @@ def run(tier, seed):
     mods = make_b3_modules(group_by_src(pick3), rng, 30, "a")
     mods += make_b3_modules(group_by_src(pick2), rng, 30, "b")
     mods += make_b3_modules({k: gsrc[k] for k in src_keys}, rng, 48, "c")
+    mods += make_b3_modules(group_by_src(pick_stack(sets["stack"], quick, rng, cov)), rng, 30, "d")
     # B3 children, B1 builds + runs and the text part run side by side; judging stays in this thread
     b1mods, specs = make_b1(sets, t3d, t3n, gsrc, quick, seed, rng)
     col = Collector()
@@ -748,7 +802,7 @@ def run(tier, seed):
     stats.update({k: v for k, v in tstats.items() if k not in ("fact_diffs", "run_diffs", "no_demand")})
 
     nontriv_cases = {L.case_key(c) for m, _ in mods for c in m.cases
-                     if any(n["ov"] != {"p": "-", "q": "-"} for n in c["nodes"]) or c["hdr"] != c["opt"]}
+                     if any(n["st"] for n in c["nodes"]) or c["hdr"] != c["opt"]}
     nontriv_cases |= {L.case_key(c) for m in b1mods for c in m.cases if c["nodes"]}
     samples = []
     m, job = mods[len(mods) // 2]
@@ -772,8 +826,10 @@ def run(tier, seed):
                "without_demand": stats["no_demand"], "diffs": stats["run_diffs"]},
         "texts": {k: stats[k] for k in ("value_texts", "value_evals", "value_accepting", "list_texts", "list_evals",
                                         "list_nonempty_results", "e2e", "sweep", "header_scope", "text_diffs")},
-        "rule": "scope: every tree of <= 3 nodes / depth 3 (5 override combinations per node) and all 225 header x option x "
-                "position combinations on one-node trees are TLC states; a seeded sample is replayed (B3: directives exported "
+        "rule": "scope: every tree of <= 3 nodes / depth 3 (5 override combinations per node), all 225 header x option x "
+                "position combinations on one-node trees, and every chain of <= 2 nodes in which the nodes carry any list "
+                "of <= 3 decorators / <= 2 with-items (repeated directives included) are TLC states; a seeded sample "
+                "(stratified by the class of list for the last set) is replayed (B3: directives exported "
                 "from the real pipeline at 4 points; B1: compiled behaviour); non-trivial = distinct replayed case with an "
                 "override or a header/option, or text/list with an accepting result. texts: all chunk sequences / item lists "
                 "of the configuration go through the real parser",
@@ -782,7 +838,10 @@ def run(tier, seed):
     rc = rep.finish()
     cov["known_findings"] = rep.kf_summary()
     core.write_evidence(PROP, tier, seed, "model_checking", cov, time.time() - t0,
-                        assumptions=["two abstract boolean directives stand for the inheritable boolean directives; the mapping to "
+                        assumptions=["a directive repeated in the decorators of one function / class: the first (outermost) "
+                                     "decorator wins, for the object and its contents (comment in _extract_directives, "
+                                     "tests/run/pure.pyx); repeated in one with-statement: the last item wins (= the nested form)",
+                                     "two abstract boolean directives stand for the inheritable boolean directives; the mapping to "
                                      "real names (same default) is drawn per module",
                                      "header > option follows the property statement and the cythonize paragraph of the docs (the -X "
                                      "paragraph of the docs says the opposite; the code agrees with the property)",
